@@ -339,7 +339,7 @@ def run_climate(case, ctx):
         if d >= 10 * TAU:
             viols.append(viol("climate-equator-not-equivariant", f"Climate1D(f)(flip.x) != flip.Climate1D(f)(x): defect {d:.3g} ({msg}); control {control:.3g}; {key}"))
         got_sig = [(tuple(t), int(c)) for t, c in y.get_signature()]
-        if sorted(got_sig) != sorted((tuple(t), int(c)) for t, c in out_keys) or tuple(y.get_spatial_dims()) != (n_lon, n_lat) or y.D != 2:
+        if got_sig != [(tuple(t), int(c)) for t, c in out_keys] or tuple(y.get_spatial_dims()) != (n_lon, n_lat) or y.D != 2:
             viols.append(viol("climate-output-signature", f"Climate1D returned {got_sig} extents {y.get_spatial_dims()}, requested {out_keys}; {key}"))
     except Exception as e:
         import traceback
